@@ -263,7 +263,8 @@ abbrev Ctl := Str × Dict
 /-- values pass through `survey.insert_xpaths`: the identity when there is no `${` -/
 def refFree (d : Dict) : Bool := d.all fun kv => kv.1 = "jr:count".toList || !isInfix "${".toList kv.2
 
-def hasLabel (r : Cells) : Bool := has r "label" || hasPrefix r "label::"
+def hasLabel (r : Cells) : Bool :=
+  has r "label" || hasPrefix r "label::" || get r "control::appearance" = some "label".toList
 def hasHintCell (r : Cells) : Bool := has r "hint" || hasPrefix r "hint::"
 def hasMedia (r : Cells) : Bool := hasPrefix r "media::"
 
